@@ -144,7 +144,7 @@ def group_pair_alpha(node):
     return ["IntegerLiteral", "Variable"]
 
 
-def make_pairs(H, ka, kb, family=False, formers=None, groups=False):
+def make_pairs(H, ka, kb, family=False, formers=None, groups=False, leaves=None):
     alpha = [c for c in TC.HOLE_FREE if c not in ("Let2",)]
     if groups:
         family = True
@@ -152,7 +152,7 @@ def make_pairs(H, ka, kb, family=False, formers=None, groups=False):
         # every former over leaves, on both sides: equal and unequal operands under binders and in
         # contexts; different formers fail at the root, so the cost is the same-former pairs
         fs = formers or FORMERS
-        alpha = lambda n: fs if n.depth == 1 else PAIR_LEAVES
+        alpha = lambda n: fs if n.depth == 1 else (leaves or PAIR_LEAVES)
 
     def make():
         ex, it = H.engine(node_budget=None if family else ka + kb - 2, solver_timeout_ms=120000)
@@ -389,6 +389,7 @@ def main():
              ("hole-free pairs %d+%d: symmetry and agreement with normal forms" % pair, make_pairs(H, *pair)),
              ("every former over leaves, both sides: symmetry, normal forms, context", make_pairs(H, 0, 0, family=True, formers=FORMERS_QUICK if quick else FORMERS)),
              ("pairs of groups of 1 or 2 leaf definitions (equal and different sizes): symmetry, normal forms", make_pairs(H, 0, 0, groups=True)),
+             ("every arithmetic and comparison operator over variables, both sides (stuck operands: the structural rule)", make_pairs(H, 0, 0, family=True, formers=I.BINARY, leaves=["Variable"])),
              ("groups of 3 leaf definitions: value = normal form", make_group_programs(H, 3)),
              ("reflexivity, %d nodes" % (3 if quick else 5), c12.make_reflexive(H, 3 if quick else 5))]
     only = os.environ.get("C06_PARTS")
